@@ -127,8 +127,13 @@ def r14_1_marshalling(ctx):
                 try:
                     val, _ = run_function(f.node, {"cls": cls_sym, "app_id": app_id, "method_signature": "m(sig)void", "args": list(args), "extra_fields": None}, oracle, f.fq, permissive=True, resolver=lambda nm: rt.node if nm == "require_type" else None, setup=setup)
                 except Raised as r:
-                    n_plain = len(kinds)
-                    ctx.bad("R14.1", construct, f"raises {r.exc_text[:70]}", f.where)
+                    n_plain = sum(1 for k in kinds if not k.startswith("txn"))
+                    if n_plain > 15 and "TealInputError" in r.exc_text:
+                        # ARC-4 carries at most 15 arguments besides the selector; refusing a longer list is the sound answer of a
+                        # builder that does not pack the tail into a tuple
+                        ctx.ok("R14.1", construct, {"refused": r.exc_text[:80]}, f.where)
+                    else:
+                        ctx.bad("R14.1", construct, f"raises {r.exc_text[:70]}", f.where)
                     continue
                 q.need(isinstance(val, Rec) and val.is_call("Seq"), f"{f.fq}: result is not a Seq")
                 items = val.args
